@@ -4,6 +4,7 @@
 pub mod isolated;
 pub mod rng;
 pub mod wire;
+pub mod progs;
 
 use std::io::Write;
 use std::panic::{catch_unwind, AssertUnwindSafe};
@@ -110,3 +111,6 @@ pub fn main_with(run: impl FnOnce(&mut Ctx)) {
     ctx.out.flush().expect("flush");
 }
 pub mod expr;
+pub mod instrgen;
+pub mod lexwire;
+pub mod seqgate;
